@@ -99,6 +99,24 @@ impl<S> MergeUnbounded<S> {
     }
 }
 
+#[cfg(futures_buffered_verif)]
+impl<S> MergeUnbounded<S> {
+    /// Verification hook: like `new`, but the first group has capacity `n` (`n > 0`),
+    /// so that group boundaries are reachable with few sources.
+    pub fn verif_with_capacity(n: usize) -> Self {
+        if n > 0 {
+            Self {
+                groups: Vec::from_iter([MergeBounded {
+                    streams: FuturesUnorderedBounded::new(n),
+                }]),
+                poll_next: 0,
+            }
+        } else {
+            Self::new()
+        }
+    }
+}
+
 impl<S: Stream + Unpin> Stream for MergeUnbounded<S> {
     type Item = S::Item;
 
